@@ -212,7 +212,9 @@ def run_case(case, workdir):
         positions = [2, 4, 5]
         lists = [["all"], ref.fields[:3]]
     else:
-        positions = (list(range(0, N + 1)) if case["dyadic"] else list(range(1, N, 2)))[::case["stride"]]
+        # every lattice point also for the non-dyadic geometry (faces and centres are where the box bounds of the Header lie);
+        # with stride 2 the cases alternate between the even and the odd points
+        positions = list(range(0, N + 1))[(dh % 2 if case["stride"] > 1 else 0)::case["stride"]]
         lists = [["A", "C", "G", "H"], ["G"], ["all"], ["G", "A"]]
     k = 0
     for m in positions:
